@@ -5,6 +5,7 @@
 #include "logger.h"
 #include "transposition_table.h"
 #include "chessplusplusConfig.h"
+#include "verif_hooks.h"
 
 namespace engine
 {
@@ -45,6 +46,7 @@ void Uci::loop()
 
     while (!quit && std::getline(std::cin, line))
     {
+        VERIF_POINT(UCI_LINE, nullptr, line.c_str(), nullptr);
         // handle empty lines
         if (line == "")
             continue;
@@ -243,6 +245,8 @@ bool Uci::moves_command(std::istringstream& istream)
 
 void start_searching(Uci* uci)
 {
+    VERIF_POINT(THREAD_START, nullptr, nullptr, nullptr);
+    VERIF_SCOPE_EXIT(THREAD_END);
     uint64_t key = PolyglotBook::hash(uci->position);
     if (uci->polyglot.contains(key))
     {
@@ -296,6 +300,7 @@ bool Uci::go_command(std::istringstream& istream)
 
     std::thread search_thread(start_searching, this);
     search_thread.detach();
+    VERIF_POINT(UCI_GO_SPAWNED, nullptr, nullptr, nullptr);
 
     return true;
 }
